@@ -144,12 +144,35 @@ def selftest():
             ok = n > 0
             log("selftest: %-70s %s (%d record(s) for %s via %s)" % (what, "rejected" if ok else "NOT REJECTED", n, pid, job))
             failed += 0 if ok else 1
+        # (L) bit-level behaviour replay: the valid frame of 0x1C (A down), hand-written; the faithful
+        # expectation must be accepted, one corrupted expected result / one corrupted held set rejected
+        import subprocess
+        bits = [0, 0, 0, 1, 1, 1, 0, 0, 0, 0, 1]
+        good = [dict(op="bit", b=b, f=["none"], out=["none"], down=[], ctx="Start") for b in bits]
+        good[10].update(f=["byte", 28], out=["ev", "A", "Down"], down=["A"])
+        bad1 = [dict(x) for x in good]
+        bad1[10] = dict(bad1[10], out=["ev", "S", "Down"], down=["S"])
+        bad2 = [dict(x) for x in good]
+        bad2[10] = dict(bad2[10], down=[])
+        bad3 = [dict(x) for x in good]
+        bad3[10] = dict(bad3[10], f=["err", "ParityError"], out=["err", "ParityError"], down=[])
+        for what, beh, want in (("link replay: faithful behaviour accepted", good, None),
+                                ("link replay: expected event corrupted", bad1, "C01"),
+                                ("link replay: host held set corrupted", bad2, "C18"),
+                                ("link replay: expected frame verdict corrupted", bad3, "C06")):
+            pth = os.path.join(d, "link_selftest.ndjson")
+            open(pth, "w").write(json.dumps(beh) + "\n")
+            q = subprocess.run([pkverif.PKV, "replay-link", pth], stdout=subprocess.PIPE, stderr=subprocess.PIPE, text=True)
+            got = [json.loads(l[4:])["prop"] for l in q.stdout.splitlines() if l.startswith("@@M ")]
+            ok = q.returncode == 0 and (got == [] if want is None else got == [want])
+            log("selftest: %-70s %s (%s)" % (what, "ok" if ok else "FAILED", got))
+            failed += 0 if ok else 1
         import shutil
         shutil.rmtree(d, ignore_errors=True)
         if failed:
             log("selftest: %d negative control(s) failed" % failed)
             return 2
-        log("selftest: all %d negative controls rejected" % len(cases))
+        log("selftest: all %d negative controls rejected" % (len(cases) + 5))
         return 0
     except pkverif.ToolError as e:
         log("TOOL-ERROR:", e)
